@@ -233,7 +233,9 @@ func runC13(c *Ctx) {
 			}
 			// Concurrently call sites in this object function, grouped by receiver role: deferred set (dfs) vs parent (out)
 			var conc []ssa.CallInstruction
-			for _, call := range an.CallsIn(fn, func(_ ssa.CallInstruction, ci an.CalleeInfo) bool { return strings.HasSuffix(ci.FullName(), "graphql.FieldSet).Concurrently") }) {
+			for _, call := range an.CallsIn(fn, func(_ ssa.CallInstruction, ci an.CalleeInfo) bool {
+				return strings.HasSuffix(ci.FullName(), "graphql.FieldSet).Concurrently")
+			}) {
 				conc = append(conc, call)
 			}
 			for _, call := range conc {
@@ -384,7 +386,9 @@ func (c *Ctx) deferredBody(pfx string, body *ssa.Function) {
 
 	// fresh context, dispatched on it, errors of it
 	var fresh *ssa.Call
-	for _, call := range an.CallsIn(body, func(_ ssa.CallInstruction, ci an.CalleeInfo) bool { return ci.FullName() == pkgGraphql+".WithFreshResponseContext" }) {
+	for _, call := range an.CallsIn(body, func(_ ssa.CallInstruction, ci an.CalleeInfo) bool {
+		return ci.FullName() == pkgGraphql+".WithFreshResponseContext"
+	}) {
 		fresh, _ = call.(*ssa.Call)
 	}
 	okFresh := fresh != nil
@@ -394,7 +398,9 @@ func (c *Ctx) deferredBody(pfx string, body *ssa.Function) {
 	}
 	okDispatch, okErrors := false, false
 	if fresh != nil {
-		for _, call := range an.CallsIn(body, func(_ ssa.CallInstruction, ci an.CalleeInfo) bool { return strings.HasSuffix(ci.FullName(), "graphql.FieldSet).Dispatch") }) {
+		for _, call := range an.CallsIn(body, func(_ ssa.CallInstruction, ci an.CalleeInfo) bool {
+			return strings.HasSuffix(ci.FullName(), "graphql.FieldSet).Dispatch")
+		}) {
 			if an.SameVar(call.Common().Args[1], fresh) {
 				okDispatch = true
 			}
